@@ -433,9 +433,14 @@ type printedCase struct {
 	Context string `json:"context"`
 }
 
-var printedContexts = []string{"%s", "{ %s }", "%s.", "%s;", "%s,", "(%s)", " %s\n"}
+// The last three contexts put runes whose lower-case form has another UTF-8
+// length (Kelvin sign 3->1 bytes, U+0130 2->1, U+023A 2->3) in FRONT of the
+// printed form: any offset computed on a case-folded copy of the input is then
+// off by the time the lexer reaches the form.
+var printedContexts = []string{"%s", "{ %s }", "%s.", "%s;", "%s,", "(%s)", " %s\n",
+	"/t<\u212a> %s", "/t<\u0130\u0130> %s ;", "\"\u023a\u023a\u023a\u023a\u023a\u023a\"@[] %s"}
 
-var idAlphabet = []string{"a", " ", `\`, "<", ">", `"`, "@", "[", "]", "^", ":", ",", "/", "?", ";", "_", "(", ".", "é"}
+var idAlphabet = []string{"a", " ", `\`, "<", ">", `"`, "@", "[", "]", "^", ":", ",", "/", "?", ";", "_", "(", ".", "é", "\u212a", "\u0130"}
 
 var (
 	t1 = time.Date(2006, 1, 2, 15, 4, 5, 999999999, time.UTC)
